@@ -59,17 +59,24 @@ class Diag:
         return (self.line, self.col)
 
 
-def quoted_user_text_removed(msg):
-    """Drop '...'-quoted and "..."-quoted segments (user text echoed in messages)."""
-    msg = re.sub(r"'[^']*'", "''", msg)
-    msg = re.sub(r'"[^"]*"', '""', msg)
-    msg = re.sub(r"`[^`]*`", "``", msg)
+def quoted_user_text_removed(msg, source=None):
+    """Drop '...'-quoted, "..."-quoted and `...`-quoted segments (user text echoed in messages).
+    When the script text is known, a quoted segment is user text only if it occurs in the script;
+    anything else inside quotes was produced by the interpreter and stays subject to the test."""
+    def drop(m):
+        inner = m.group(0)[1:-1]
+        if source is None or inner in source or inner.replace("\\n", "\n") in source:
+            return m.group(0)[0] * 2
+        return " " + inner + " "
+    msg = re.sub(r"'[^']*'", drop, msg)
+    msg = re.sub(r'"[^"]*"', drop, msg)
+    msg = re.sub(r"`[^`]*`", drop, msg)
     return msg
 
 
-def internal_identifier(msg):
+def internal_identifier(msg, source=None):
     """Return the offending internal-looking identifier in msg, or None."""
-    bare = quoted_user_text_removed(msg)
+    bare = quoted_user_text_removed(msg, source)
     m = INTERNAL_IDENT.search(bare)
     if m:
         return m.group(0)
